@@ -290,18 +290,69 @@ mod test {
 pub mod arbitrary_precision {
     use super::*;
 
+    /// Visitor for the JSON-number adapters
+    ///
+    /// Same as the general visitor, except that a float is taken to be a JSON
+    /// number which serde_json has already converted (as happens when reading
+    /// from a `serde_json::Value`): its shortest decimal text is the text of
+    /// the JSON number, so that text is parsed instead of expanding the binary
+    /// value.
+    struct JsonNumberVisitor;
+
+    impl<'de> de::Visitor<'de> for JsonNumberVisitor {
+        type Value = BigDecimal;
+
+        fn expecting(&self, formatter: &mut fmt::Formatter) -> fmt::Result {
+            BigDecimalVisitor.expecting(formatter)
+        }
+
+        fn visit_str<E: de::Error>(self, value: &str) -> Result<BigDecimal, E> {
+            BigDecimalVisitor.visit_str(value)
+        }
+
+        fn visit_u64<E: de::Error>(self, value: u64) -> Result<BigDecimal, E> {
+            BigDecimalVisitor.visit_u64(value)
+        }
+
+        fn visit_i64<E: de::Error>(self, value: i64) -> Result<BigDecimal, E> {
+            BigDecimalVisitor.visit_i64(value)
+        }
+
+        fn visit_u128<E: de::Error>(self, value: u128) -> Result<BigDecimal, E> {
+            BigDecimalVisitor.visit_u128(value)
+        }
+
+        fn visit_i128<E: de::Error>(self, value: i128) -> Result<BigDecimal, E> {
+            BigDecimalVisitor.visit_i128(value)
+        }
+
+        fn visit_f64<E: de::Error>(self, value: f64) -> Result<BigDecimal, E> {
+            let number = serde_json::Number::from_f64(value)
+                             .ok_or_else(|| E::custom("NAN or Infinite"))?;
+            BigDecimalVisitor.visit_str(number.as_str())
+        }
+
+        fn visit_map<A: de::MapAccess<'de>>(self, map: A) -> Result<BigDecimal, A::Error> {
+            BigDecimalVisitor.visit_map(map)
+        }
+    }
+
+    /// Return error if the scale of the decimal is beyond the configured limit
+    pub(crate) fn check_scale_limit<E: de::Error>(n: BigDecimal) -> Result<BigDecimal, E> {
+        if SERDE_SCALE_LIMIT > 0 && (n.scale > SERDE_SCALE_LIMIT || n.scale < -SERDE_SCALE_LIMIT) {
+            let msg = format!("Calculated exponent '{}' out of bounds", -(n.scale as i128));
+            Err(E::custom(msg))
+        } else {
+            Ok(n)
+        }
+    }
+
     pub fn deserialize<'de, D>(deserializer: D) -> Result<BigDecimal, D::Error>
     where
         D: serde::de::Deserializer<'de>,
     {
-        let n = BigDecimal::deserialize(deserializer)?;
-
-        if n.scale.abs() > SERDE_SCALE_LIMIT && SERDE_SCALE_LIMIT > 0 {
-            let msg = format!("Calculated exponent '{}' out of bounds", -n.scale);
-            Err(serde::de::Error::custom(msg))
-        } else {
-            Ok(n)
-        }
+        let n = deserializer.deserialize_any(JsonNumberVisitor)?;
+        check_scale_limit(n)
     }
 
     pub fn serialize<S>(value: &BigDecimal, serializer: S) -> Result<S::Ok, S::Error>
@@ -353,6 +404,8 @@ pub mod arbitrary_precision_option {
     {
         Option::<serde_json::Number>::deserialize(deserializer)?
                                      .map(|num| num.as_str().parse().map_err(serde::de::Error::custom))
+                                     .transpose()?
+                                     .map(arbitrary_precision::check_scale_limit)
                                      .transpose()
     }
 
